@@ -80,6 +80,15 @@ def run(res, args):
         if ns:
             n0 = bytes.fromhex(ns[0][0])
             xl.append(b'<' + root + b' xmlns="' + n0 + b'"/>'); xexp.append(byroot(n0 + b'|' + root)); xdesc.append((l['id'], 'namespaced-root'))
+        # a DOCTYPE that carries no identifier at all (internal subset only) says nothing: the root element decides;
+        # nor does the NAME in a DOCTYPE select a language (only public and system identifiers do)
+        xl.append(b'<!DOCTYPE ' + root + b' [<!ENTITY e "x">]><' + root + decl + b'/>'); xexp.append(byroot(root)); xdesc.append((l['id'], 'doctype-without-identifiers'))
+        if ns:
+            n0 = bytes.fromhex(ns[0][0])
+            xl.append(b'<!DOCTYPE ' + root + b' [<!ENTITY e "x">]><' + root + b' xmlns="' + n0 + b'"/>'); xexp.append(byroot(n0 + b'|' + root)); xdesc.append((l['id'], 'doctype-without-identifiers-namespaced-root'))
+            other = next((bytes.fromhex(x['pub']['root']) for x in L if x['pub']['root'] and bytes.fromhex(x['pub']['root']) != root and b':' not in bytes.fromhex(x['pub']['root'])), None)
+            if other:
+                xl.append(b'<!DOCTYPE ' + other + b' [<!ENTITY e "x">]><' + root + b' xmlns="' + n0 + b'"/>'); xexp.append(byroot(n0 + b'|' + root)); xdesc.append((l['id'], 'doctype-name-of-another-language'))
         xl.append(b'<!DOCTYPE nosuchroot PUBLIC "-//nobody//x" "nosuch.dtd"><nosuchroot/>'); xexp.append(None); xdesc.append((l['id'], 'unknown'))
     wi, inc1 = corr.run_lines(hp, wl, env=env)
     wm, _ = corr.run_lines(drv, wl)
@@ -106,13 +115,13 @@ def run(res, args):
             diffs.append(('X2T', xl[i].decode('latin-1'), a, m))
     res.coverage.update({'wbxml_cases': len(wl), 'xml_cases': len(xl), 'exhaustive': True,
                          'traces_validated_against_impl': len(wl) + len(xl) - len(diffs),
-                         'rule': 'every language x every identification route x {no forcing, each of the 29 forced languages} on the WBXML side; every language x {DOCTYPE public id (two spellings), system id, system id after unknown public id, root element, namespaced root, unknown} on the XML side; expectation = first registered entry with that identifier'})
+                         'rule': 'every language x every identification route x {no forcing, each of the 29 forced languages} on the WBXML side; every language x {DOCTYPE public id (two spellings), system id, system id after unknown public id, root element, namespaced root, DOCTYPE without identifiers (plain / namespaced root / name of another language), unknown} on the XML side; expectation = first registered entry with that identifier'})
     res.samples = [{'case': wdesc[i], 'request': wl[i][:80], 'impl': (wi[i] or '')[:60]} for i in rng.sample(range(len(wl)), 4)]
     known = [k for k in common.load_known()['findings'] if k['property'] == 'C10']
     rest = []
     for item in bad:
         kind, desc, req, exp, a = item
-        k = next((k for k in known if kind == 'xml' and k['match'].get('route') == desc[1] and k['match'].get('lang') == desc[0]), None)
+        k = next((k for k in known if kind == 'xml' and (k['match'].get('route') == desc[1] or desc[1] in k['match'].get('routes', ())) and k['match'].get('lang') == desc[0]), None)
         if k:
             if f"{k['id']}: {k['what']}" not in res.known:
                 res.known.append(f"{k['id']}: {k['what']}")
